@@ -34,7 +34,19 @@ class IndexBuf(object):
                     return val
                 continue
             if len(vs) != 1:
-                raise CheckerError('line %d: scratch %s indexed by several loop variables' % (node.lineno, self.name))
+                # several loop variables (pos = (k2-i0)*n2 + (l2-j0)): the load index must be the same polynomial in other
+                # loop variables
+                import itertools
+                cands = [a for a in k.atoms() if a in pysym.INT_ATOMS and a not in ('m1', 'm2', 'n2')]
+                for perm in itertools.permutations(cands, len(vs)):
+                    mp = {v_: P.atom(w_) for v_, w_ in zip(vs, perm)}
+                    if normal(idx.subs(mp) - k).is_zero():
+                        tmp = {v_: P.atom('%t_' + w_) for v_, w_ in zip(vs, perm)}
+                        fin = {'%t_' + w_: P.atom(w_) for w_ in perm}
+                        for w_ in perm:
+                            pysym.INT_ATOMS.add('%t_' + w_)
+                        return trig.tsubs(trig.tsubs(val, tmp), fin)
+                raise CheckerError('line %d: scratch %s[%s] does not match the stored index %s' % (node.lineno, self.name, k.text(), idx.text()))
             v = vs[0]
             coef = idx.diff(v)
             if not coef.is_const():
@@ -114,3 +126,344 @@ def run_point_function(it, modname, fname, F, c, out):
     if len(res) != 1 or res[0][1][0] != 'return':
         raise CheckerError('%s.%s: expected exactly one returning path, got %r' % (modname, fname, [(o[0], getattr(o[1], 'eargs', None)) for _, o in res]))
     return dict(path=res[0][0], r_defs=[d[0] for d in it.local_defs.get('r', [])[n0:]], pi_ok=pi_ok, consts=SK.module_consts(m))
+
+
+# ---------------------------------------------------------------------------------------------------------------
+# specification: energy density at the point and its formal derivatives
+class Spec(object):
+    """U = 1/2 eps^T F eps r  at the point, eps = E0(c) + EL(slopes(c), imperfection slopes);
+    E0 from the linear strain vectors of the model's strain function (or operator), slopes from the model's cfuvw field."""
+    def __init__(self, it, strain_tab, field_tab, consts, F, kin, sina, cosa):
+        self.it, self.tab, self.ftab, self.consts, self.F, self.kin = it, strain_tab, field_tab, consts, F, kin
+        self.sina, self.cosa = sina, cosa
+        self.c = SK.CoefArray('c')
+        self.m1, self.m2, self.n2 = integer('m1'), integer('m2'), integer('n2')
+        self.ne = len(next(iter(strain_tab.values()))[1])
+        self.states = {}        # abstract atom -> canonical sum expression
+        self._build_states()
+
+    def camp(self, fam, vars_, p):
+        idx = SK.dof_index(fam, vars_, p, self.consts, self.m1, self.m2)
+        return self.c.sym_load(self.it, idx, None)
+
+    def series(self, per_dof):
+        """sum over all amplitudes of c_A * per_dof[(fam, p)] (generic loop-variable names i1 | i2, j2)"""
+        c = self.consts
+        tot = P({})
+        for p in range(c['num0']):
+            f = per_dof.get((0, p))
+            if f is not None and not f.is_zero():
+                tot = tot + self.camp(0, (), p) * f
+        t1 = P({})
+        for p in range(c['num1']):
+            f = per_dof.get((1, p))
+            if f is not None and not f.is_zero():
+                t1 = t1 + self.camp(1, ('i1',), p) * f
+        if not t1.is_zero():
+            tot = tot + make_sum('i1', c['i0'], self.m1 + c['i0'], t1, [])
+        t2 = P({})
+        for p in range(c['num2']):
+            f = per_dof.get((2, p))
+            if f is not None and not f.is_zero():
+                t2 = t2 + self.camp(2, ('i2', 'j2'), p) * f
+        if not t2.is_zero():
+            tot = tot + make_sum('j2', c['j0'], self.n2 + c['j0'], make_sum('i2', c['i0'], self.m2 + c['i0'], t2, []), [])
+        return tot
+
+    def dof_vec(self, key):
+        lv, vec = self.tab[key]
+        return vec
+
+    def slope(self, key, comp, var):
+        lv, fld = self.ftab[key]
+        f = fld.get(comp)
+        if f is None or f.is_zero():
+            return P({})
+        return trig.tdiff(trig.tsubs(f, {'cosa': self.cosa}), var)
+
+    def value(self, key, comp):
+        lv, fld = self.ftab[key]
+        f = fld.get(comp)
+        return trig.tsubs(f, {'cosa': self.cosa}) if f is not None else P({})
+
+    def _build_states(self):
+        keys = list(self.tab)
+        for k in range(self.ne):
+            self.states['E0_%d' % k] = self.series({key: self.tab[key][1][k] for key in keys})
+        self.states['WX'] = self.series({key: self.slope(key, 'w', 'x') for key in self.ftab})
+        self.states['WT'] = self.series({key: self.slope(key, 'w', 't') for key in self.ftab})
+        if self.kin == 'sanders':
+            self.states['V'] = self.series({key: self.value(key, 'v') for key in self.ftab})
+
+    def nonlinear_strain(self, wx, wt, v):
+        """quadratic part of the membrane strains (castro = 0: the imperfection alone is strain free)"""
+        w0x, w0t = P.atom('w0x'), P.atom('w0t')
+        ri = P.atom('r', -1)
+        rot = wt if self.kin != 'sanders' else wt - self.cosa * v
+        z = P({})
+        out = [wx * wx * 0.5 + wx * w0x,
+               (rot * rot * 0.5 + rot * w0t) * ri * ri,
+               (wx * rot + wx * w0t + rot * w0x) * ri]
+        return out + [z] * (self.ne - 3)
+
+    def energy(self, A, B):
+        """U(t, s) with increments t on amplitude A = (fam, p) (row names) and s on B (column names)"""
+        t, s = P.atom('$t'), P.atom('$s')
+        eA = SK.rename_table_entry(self.tab[A], 'A')
+        eB = SK.rename_table_entry(self.tab[B], 'B')
+
+        def ren(key, f, role):
+            lv = self.ftab[key][0]
+            new = SK.ROLE_VARS[(role, key[0])]
+            return f if tuple(lv) == tuple(new) or f.is_zero() else trig.tsubs(f, {a: P.atom(b) for a, b in zip(lv, new)})
+        wx = P.atom('WX') + t * ren(A, self.slope(A, 'w', 'x'), 'A') + s * ren(B, self.slope(B, 'w', 'x'), 'B')
+        wt = P.atom('WT') + t * ren(A, self.slope(A, 'w', 't'), 'A') + s * ren(B, self.slope(B, 'w', 't'), 'B')
+        v = P({})
+        if self.kin == 'sanders':
+            v = P.atom('V') + t * ren(A, self.value(A, 'v'), 'A') + s * ren(B, self.value(B, 'v'), 'B')
+        eL = self.nonlinear_strain(wx, wt, v)
+        eps = [P.atom('E0_%d' % k) + t * eA[k] + s * eB[k] + eL[k] for k in range(self.ne)]
+        U = P({})
+        for a in range(self.ne):
+            for b in range(self.ne):
+                Fab = self.F[a * self.ne + b] if not hasattr(self.F, 'shape') else self.F[a, b]
+                if isinstance(Fab, P):
+                    U = U + Fab * eps[a] * eps[b]
+        return U * 0.5 * P.atom('r'), eps
+
+    def expand(self, p):
+        return trig.tnormal(p.subs(self.states))
+
+    def fint_nl(self, A):
+        """dU/dt at 0 minus the linear part e_A^T F E0 r"""
+        U, eps = self.energy(A, A)
+        full = U.diff('$t').subs({'$t': 0, '$s': 0})
+        eA = SK.rename_table_entry(self.tab[A], 'A')
+        lin = P({})
+        for a in range(self.ne):
+            if eA[a].is_zero():
+                continue
+            for b in range(self.ne):
+                Fab = self.F[a * self.ne + b] if not hasattr(self.F, 'shape') else self.F[a, b]
+                if isinstance(Fab, P):
+                    lin = lin + eA[a] * Fab * P.atom('E0_%d' % b)
+        return full - lin * P.atom('r')
+
+    def tangent_nl(self, A, B):
+        """d2U/dt ds at 0 minus the linear part e_A^T F e_B r"""
+        U, eps = self.energy(A, B)
+        full = U.diff('$t').diff('$s').subs({'$t': 0, '$s': 0})
+        eA = SK.rename_table_entry(self.tab[A], 'A')
+        eB = SK.rename_table_entry(self.tab[B], 'B')
+        lin = P({})
+        for a in range(self.ne):
+            if eA[a].is_zero():
+                continue
+            for b in range(self.ne):
+                Fab = self.F[a * self.ne + b] if not hasattr(self.F, 'shape') else self.F[a, b]
+                if isinstance(Fab, P) and not eB[b].is_zero():
+                    lin = lin + eA[a] * Fab * eB[b]
+        return full - lin * P.atom('r')
+
+
+# ---------------------------------------------------------------------------------------------------------------
+# counters: the integrand function numbers its outputs with c += 1, the wrapper gives rows[c] / cols[c]
+def _int_names(mod, fname):
+    return {n for n, ty in mod.pyx.ctypes.get(fname, {}).items() if ty in ('int', 'long')}
+
+
+def skeleton(stmts, ints, counter='c'):
+    """control skeleton over the integer variables: loops, integer guards, continue, counter increments, integer assignments"""
+    out = []
+    for s in stmts:
+        if isinstance(s, ast.For):
+            inner = skeleton(s.body, ints, counter)
+            if any(x[0] in ('inc', 'for') for x in _flatten(inner)):
+                out.append(('for', ast.unparse(s.target), ast.unparse(s.iter), tuple(inner)))
+        elif isinstance(s, ast.If):
+            names = {n.id for n in ast.walk(s.test) if isinstance(n, ast.Name)}
+            body, orelse = skeleton(s.body, ints, counter), skeleton(s.orelse, ints, counter)
+            relevant = any(x[0] in ('inc', 'continue') for x in _flatten(body + orelse))
+            if relevant:
+                if not names <= ints:
+                    raise CheckerError('line %d: counter advanced under a non-integer condition' % s.lineno)
+                out.append(('if', ast.unparse(s.test), tuple(body), tuple(orelse)))
+        elif isinstance(s, ast.Continue):
+            out.append(('continue',))
+        elif isinstance(s, ast.AugAssign) and isinstance(s.target, ast.Name) and s.target.id == counter:
+            out.append(('inc', ast.unparse(s.value)))
+        elif isinstance(s, ast.Assign) and len(s.targets) == 1 and isinstance(s.targets[0], ast.Name) and s.targets[0].id in ints \
+                and s.targets[0].id in ('row', 'col', counter):
+            out.append(('int', s.targets[0].id, ast.unparse(s.value)))
+    return out
+
+
+def _flatten(sk):
+    for x in sk:
+        yield x
+        if x[0] == 'for':
+            for y in _flatten(x[3]):
+                yield y
+        elif x[0] == 'if':
+            for y in _flatten(x[2]):
+                yield y
+            for y in _flatten(x[3]):
+                yield y
+
+
+def strip_unused_ints(sk, used_in_guards):
+    """row/col assignments matter only where a guard reads them"""
+    out = []
+    for x in sk:
+        if x[0] == 'int' and x[1] in ('row', 'col') and not used_in_guards:
+            continue
+        if x[0] == 'for':
+            out.append(('for', x[1], x[2], tuple(strip_unused_ints(x[3], used_in_guards))))
+        elif x[0] == 'if':
+            out.append(('if', x[1], tuple(strip_unused_ints(x[2], used_in_guards)), tuple(strip_unused_ints(x[3], used_in_guards))))
+        else:
+            out.append(x)
+    return out
+
+
+def point_loop_body(fnode):
+    for s in fnode.body:
+        if isinstance(s, ast.For) and isinstance(s.iter, ast.Call) and ast.unparse(s.iter) == 'range(npts)':
+            return s.body
+    raise CheckerError('%s: no loop over the integration points' % fnode.name)
+
+
+def wrapper_index_part(fnode):
+    """statements of the wrapper after the call of integratev"""
+    for k, s in enumerate(fnode.body):
+        if isinstance(s, ast.Expr) and isinstance(s.value, ast.Call) and getattr(s.value.func, 'id', None) == 'integratev':
+            return fnode.body[k + 1:]
+    raise CheckerError('%s: no call of integratev' % fnode.name)
+
+
+def run_wrapper(it, modname, fname, F, c, iso=None):
+    """executes calc_k0L / calc_kG / calc_kLL with integratev as a no-op; returns the slot stores of rows and cols"""
+    m, _ = SK.load(it, modname)
+    f = K.kernel_func(it, modname, fname)
+    m.g['integratev'] = pysym.ExternalFunc(modname + '.integratev')
+    it.contracts[modname + '.integratev'] = lambda itp, a, kw: None
+    it.builtins['STRUCT'] = lambda name: Obj(None)
+    mat = list(iso) if iso is not None else [F]
+    args = [c, real('alpharad'), real('r2'), real('L'), real('tLA')] + mat + [integer('m1'), integer('m2'), integer('n2'),
+            integer('nx'), integer('nt'), integer('num_cores'), 'trapz2d', None, 0, 0]
+    res = it.explore(lambda: it.call(f, args, {}))
+    if len(res) != 1 or res[0][1][0] != 'return':
+        raise CheckerError('%s.%s: expected exactly one returning path, got %r' % (modname, fname, [(o[0], getattr(o[1], 'eargs', None)) for _, o in res]))
+    coo = res[0][1][1]
+    if not (isinstance(coo, pysym.Opaque) and coo.kind == 'coo'):
+        raise CheckerError('%s.%s does not return a coo_matrix' % (modname, fname))
+    return coo
+
+
+def _mentions(sk, name):
+    import re
+    for x in _flatten(sk):
+        if x[0] == 'if' and re.search(r'\b%s\b' % name, x[1]):
+            return True
+    return False
+
+
+def prune(sk):
+    """drops row/col assignments that no later guard (same list or nested) reads before they are assigned again"""
+    out = []
+    sk = list(sk)
+    for k, x in enumerate(sk):
+        if x[0] == 'int' and x[1] in ('row', 'col'):
+            later = []
+            for y in sk[k + 1:]:
+                if y[0] == 'int' and y[1] == x[1]:
+                    break
+                later.append(y)
+            if not _mentions(later, x[1]):
+                continue
+            out.append(x)
+        elif x[0] == 'for':
+            out.append(('for', x[1], x[2], tuple(prune(x[3]))))
+        elif x[0] == 'if':
+            out.append(('if', x[1], tuple(prune(x[2])), tuple(prune(x[3]))))
+        else:
+            out.append(x)
+    return out
+
+
+def aligned(it, modname, integrand, wrapper):
+    """True when the counter of the integrand function and that of the wrapper run through the same control skeleton"""
+    m, _ = SK.load(it, modname)
+    fi = K.kernel_func(it, modname, integrand)
+    fw = K.kernel_func(it, modname, wrapper)
+    ski = prune(skeleton(point_loop_body(fi.node), _int_names(m, integrand)))
+    skw = prune(skeleton(wrapper_index_part(fw.node), _int_names(m, wrapper)))
+    # a row assignment hoisted differently: compare with the row/col definitions inlined is not attempted
+    return ski == skw, ski, skw
+
+
+def install_stress(it, modname, ne):
+    """contract of cfN (proved separately on the commons text): Ns[k] = N<k>, the stress resultants of the current state"""
+    def contract(itp, args, kw):
+        out = args[-2]
+        if not isinstance(out, IndexBuf):
+            raise CheckerError('cfN contract: output is not a scratch buffer')
+        for k in range(ne):
+            out.entries.append((P.const(k), (), P.atom('N_%d' % k)))
+        return None
+    m = it.module(modname)
+    m.g['cfN'] = pysym.ExternalFunc(modname + '.cfN')
+    it.contracts[modname + '.cfN'] = contract
+
+
+def collect_matrix(it, modname, integrand, wrapper, F, c, consts, iso=None):
+    """emissions (row, col, val, conds, loopvars, line) of one non-linear matrix: values from the integrand function at the
+    generic point, rows/cols from the wrapper, paired counter by counter"""
+    out = PointOut('out', P.atom('fdim'))
+    info = run_point_function(it, modname, integrand, F, c, out)
+    coo = run_wrapper(it, modname, wrapper, _as_matrix(F), c, iso=iso)
+    vals = [s for s in out.stores if isinstance(s[0], Slot)]
+    rows = [s for s in coo.f['r'].stores if isinstance(s[0], Slot)]
+    cols = [s for s in coo.f['c'].stores if isinstance(s[0], Slot)]
+    if not (len(vals) == len(rows) == len(cols)):
+        raise CheckerError('%s/%s: %d values but %d rows and %d columns' % (integrand, wrapper, len(vals), len(rows), len(cols)))
+    div_ids = set(id(cd) for cd in it.div_conds)
+    em = []
+    for (kv, v, mode, cv, lv_line, lvv), (kr, r, _, cr, _, lvr), (kc, cc_, _, ccd, _, lvc) in zip(vals, rows, cols):
+        gv = sorted(repr(x) for x in cv if id(x) not in div_ids and SK._is_index_cond(x))
+        gr = sorted(repr(x) for x in cr if id(x) not in div_ids and SK._is_index_cond(x))
+        if gv != gr or lvv != lvr or lvr != lvc:
+            raise CheckerError('%s/%s: counter %d is reached under different guards / loops (%s | %s)' % (integrand, wrapper, len(em), gv, gr))
+        if mode != '+=':
+            raise CheckerError('%s: output not accumulated' % integrand)
+        em.append({'row': r, 'col': cc_, 'val': v, 'conds': cv, 'loopvars': lvv, 'line': lv_line})
+    return em, info
+
+
+def _as_matrix(F):
+    if hasattr(F, 'shape'):
+        return F
+    n = int(round(len(F) ** 0.5))
+    a = np.empty((n, n), dtype=object)
+    for i in range(n):
+        for j in range(n):
+            a[i, j] = F[i * n + j]
+    return a
+
+
+def transpose_emissions(ems):
+    """virtual emissions of the transposed matrix with the loop-variable roles exchanged (i1<->k1, i2<->k2, j2<->l2)"""
+    sw = {'i1': 'k1', 'k1': 'i1', 'i2': 'k2', 'k2': 'i2', 'j2': 'l2', 'l2': 'j2'}
+    tmp = {a: P.atom('%s_' + a) for a in sw}
+    fin = {'%s_' + a: P.atom(b) for a, b in sw.items()}
+    for a in sw:
+        pysym.INT_ATOMS.add('%s_' + a)
+    out = []
+    for h in ems:
+        g = dict(h)
+        g['A'] = (h['B'][0], SK.ROLE_VARS[('A', h['B'][0])], h['B'][2])
+        g['B'] = (h['A'][0], SK.ROLE_VARS[('B', h['A'][0])], h['A'][2])
+        g['val'] = trig.tsubs(trig.tsubs(h['val'], tmp), fin)
+        g['guards'] = [pysym.Cond('cmp', cd.a, normal(cd.b.subs(tmp).subs(fin))) for cd in h['guards']]
+        out.append(g)
+    return out
